@@ -530,4 +530,54 @@ theorem contains_iff (rs : List (Int × Int)) (hc : Canon rs) (v : Int) :
       · have := canon_idx (0, 0) rs hc k (idx - 1) (by omega) (by omega)
         omega
 
+/-! ### every object reachable through the API -/
+
+/-- expressions over the public API: constructor calls combined with `| & - ^` -/
+inductive SetExpr
+  | lit (xs : List (Int × Int))
+  | union (a b : SetExpr)
+  | inter (a b : SetExpr)
+  | diff (a b : SetExpr)
+  | sym (a b : SetExpr)
+
+/-- what the code computes (the `ranges` of the resulting object) -/
+def SetExpr.eval : SetExpr → List (Int × Int)
+  | .lit xs => mk xs
+  | .union a b => Model.IntSet.union a.eval b.eval
+  | .inter a b => Model.IntSet.inter a.eval b.eval
+  | .diff a b => Model.IntSet.diff a.eval b.eval
+  | .sym a b => Model.IntSet.symDiff a.eval b.eval
+
+/-- what it means as a set of integers -/
+def SetExpr.sem : SetExpr → Int → Prop
+  | .lit xs, v => Mem xs v
+  | .union a b, v => a.sem v ∨ b.sem v
+  | .inter a b, v => a.sem v ∧ b.sem v
+  | .diff a b, v => a.sem v ∧ ¬ b.sem v
+  | .sym a b, v => (a.sem v ∧ ¬ b.sem v) ∨ (b.sem v ∧ ¬ a.sem v)
+
+theorem setExpr_spec : ∀ e : SetExpr, Canon e.eval ∧ ∀ v, Mem e.eval v ↔ e.sem v
+  | .lit xs => mk_spec xs
+  | .union a b => by
+    have ha := setExpr_spec a; have hb := setExpr_spec b
+    refine ⟨(mk_spec _).1, fun v => ?_⟩
+    simp only [SetExpr.eval, SetExpr.sem, Model.IntSet.union]
+    rw [(mk_spec _).2 v, mem_append, ha.2 v, hb.2 v]
+  | .inter a b => by
+    have ha := setExpr_spec a; have hb := setExpr_spec b
+    refine ⟨(mk_spec _).1, fun v => ?_⟩
+    simp only [SetExpr.eval, SetExpr.sem, Model.IntSet.inter]
+    rw [(mk_spec _).2 v, interLoop_spec _ _ ha.1 hb.1 v, ha.2 v, hb.2 v]
+  | .diff a b => by
+    have ha := setExpr_spec a; have hb := setExpr_spec b
+    refine ⟨(mk_spec _).1, fun v => ?_⟩
+    simp only [SetExpr.eval, SetExpr.sem, Model.IntSet.diff]
+    rw [(mk_spec _).2 v, diffLoop_spec _ _ ha.1 hb.1 v, ha.2 v, hb.2 v]
+  | .sym a b => by
+    have ha := setExpr_spec a; have hb := setExpr_spec b
+    refine ⟨(mk_spec _).1, fun v => ?_⟩
+    simp only [SetExpr.eval, SetExpr.sem, Model.IntSet.symDiff, Model.IntSet.union, Model.IntSet.diff]
+    rw [(mk_spec _).2 v, mem_append, (mk_spec _).2 v, (mk_spec _).2 v,
+      diffLoop_spec _ _ ha.1 hb.1 v, diffLoop_spec _ _ hb.1 ha.1 v, ha.2 v, hb.2 v]
+
 end Proofs.IntSet
